@@ -90,6 +90,8 @@ impl CleanMarkerStore {
         fs::write(&tmp_path, &bytes)?;
         fs::File::open(&tmp_path)?.sync_all()?;
         fs::rename(&tmp_path, path)?;
+        // the rename is only durable once the directory has been synced
+        super::index::sync_parent_dir(path)?;
         Ok(())
     }
 }
